@@ -26,6 +26,7 @@ from easynetwork.lowlevel._stream import StreamDataProducer
 from easynetwork.protocol import DatagramProtocol, StreamProtocol
 from easynetwork.serializers import JSONSerializer
 
+from vlib import netutil  # noqa: E402
 from vlib import drive, memtransport, tlspeer, vloop, yieldinject
 
 PROPERTY = "C12"
@@ -114,14 +115,7 @@ class MemBackend(AsyncIOBackend):
 
 
 def _dummy_pair():
-    srv = socket.socket()
-    srv.bind(("127.0.0.1", 0))
-    srv.listen(1)
-    c = socket.socket()
-    c.connect(srv.getsockname())
-    s, _ = srv.accept()
-    srv.close()
-    return c, s
+    return netutil.tcp_pair(nodelay=False)
 
 
 def async_target(ctx, target: str, rng: random.Random) -> str | None:
@@ -449,12 +443,8 @@ def udp_threads_case(ctx, rng: random.Random, seed: int) -> str | None:
 
     N = rng.randint(2, 5)
     M = rng.randint(2, 8)
-    a = socket.socket(socket.AF_INET, socket.SOCK_DGRAM)
-    a.bind(("127.0.0.1", 0))
-    b = socket.socket(socket.AF_INET, socket.SOCK_DGRAM)
-    b.bind(("127.0.0.1", 0))
+    a, b = netutil.udp_pair()
     b.setsockopt(socket.SOL_SOCKET, socket.SO_RCVBUF, 1 << 20)
-    a.connect(b.getsockname())
     client = UDPNetworkClient(a, DatagramProtocol(JSONSerializer()), retry_interval=0.05)
     results: list = []
 
